@@ -556,7 +556,9 @@ def rule_FR16(rep, prog):
             n += 1
             rep.saw(fn)
             v = st.ops[0]
-            ok = v[0] == "c" and v[1] == 0
+            # a reset to 0 is what happens where the debt was just paid (the block that advances the buffer pointer by `skip`); anywhere else - in particular
+            # where a whole region was swallowed by the debt - the remainder has to be carried on
+            ok = v[0] == "c" and v[1] == 0 and st.block is adv[0].block
             if not ok and v[0] == "i":
                 lf = linform(fn, v)
                 ok = any(isinstance(a, tuple) and a[0] == "i" and fn.insts[a[1]].op == "load" and fn.insts[a[1]].d.get("ptr")
@@ -594,6 +596,59 @@ def rule_BD17(rep, prog):
                     % [o[1] for o in a.ops if o[0] == "c"][0], sample={"site": a.loc})
     if n < 2:
         rep.unknown(rid, "fewer than 2 surrogate constructions found in the UTF-16 encoder (%d)" % n)
+
+
+def rule_TB18(rep, prog):
+    rid = rep.rule("C20-TB18", "the surrogate blocks have the same bounds everywhere: in the UTF transforms a comparison with a block boundary constant has the sense the "
+                   "constant implies - first values (0xD800, 0xDC00, 0xE000) are compared with >= / <, last values (0xDBFF, 0xDFFF) with <= / > - so that encoder and "
+                   "decoder classify every code unit identically (an exclusive test against a LAST value leaves that one code point unclassified: the encoder emits "
+                   "a unit the decoder rejects)", floor=6)
+    FIRST, LAST = (0xd800, 0xdc00, 0xe000), (0xdbff, 0xdfff)
+    n = 0
+    for fn in prog.all_functions():
+        if not fn.name.startswith("___dispatch_transform_") and "transform" not in fn.name:
+            continue
+        for t in fn.all_insts():
+            if t.op != "icmp" or t.d["pred"] not in ("ult", "ule", "ugt", "uge", "slt", "sle", "sgt", "sge"):
+                continue
+            for side, o in enumerate(t.ops):
+                if o[0] != "c" or o[1] not in FIRST + LAST:
+                    continue
+                n += 1
+                rep.saw(fn)
+                pred = t.d["pred"][1:]           # lt / le / gt / ge
+                if side == 0:                    # constant on the left: mirror
+                    pred = {"lt": "gt", "le": "ge", "gt": "lt", "ge": "le"}[pred]
+                ok = pred in (("ge", "lt") if o[1] in FIRST else ("le", "gt"))
+                rep.require(rid, ok, t.loc, fn.name, "surrogate-boundary-off-by-one:%#x" % o[1],
+                            "%s compares a code unit / code point with the surrogate boundary %#x using `%s`: %#x is the %s value of its block, so this test puts exactly "
+                            "that value on the wrong side - the encoder lets a surrogate code point through (or the decoder refuses a valid pair), and the output of one "
+                            "transform is rejected by its inverse" % (fn.name, o[1], t.d["pred"], o[1], "first" if o[1] in FIRST else "last"),
+                            sample={"site": t.loc, "const": o[1], "pred": t.d["pred"]})
+    if n < 6:
+        rep.unknown(rid, "fewer than 6 surrogate boundary comparisons found (%d)" % n)
+
+
+def rule_FR19(rep, prog):
+    rid = rep.rule("C20-FR19", "look-back and read-ahead go through the WHOLE data object: the offsets the transforms compute are absolute, so every _dispatch_data_subrange_map "
+                   "in an applier block maps from the data object the block captured - never from the `region` it was handed, whose bytes start at the region's own "
+                   "offset", floor=4)
+    n = 0
+    for fn in prog.all_functions():
+        if not fn.name.startswith("___dispatch_transform_") or len(fn.params) < 5:
+            continue
+        for c in calls_named(fn, "_dispatch_data_subrange_map"):
+            n += 1
+            rep.saw(fn)
+            r = root_ptr(fn, c.ops[0])
+            ri = fn.inst(list(r)) if r[0] == "i" else None
+            ok = tuple(r[:2]) != ("a", 1) and (ri is None or not (ri.op == "load" and False))
+            rep.require(rid, ok, c.loc, fn.name, "subrange-mapped-from-region:%s" % fn.name,
+                        "%s maps bytes at an absolute offset out of the region it was handed instead of the whole data object: with fragmented input the look-back / "
+                        "read-ahead fetches an unrelated byte (silently corrupting the output) or fails - the result depends on where the input is split" % fn.name,
+                        sample={"site": c.loc})
+    if n < 4:
+        rep.unknown(rid, "fewer than 4 _dispatch_data_subrange_map calls found in the applier blocks (%d)" % n)
 
 
 def rule_BD8(rep, prog):
@@ -971,6 +1026,10 @@ def run(rep, tier="quick", srcdir=None, only=None):
         rule_FR16(rep, prog)
     if want("C20-BD17"):
         rule_BD17(rep, prog)
+    if want("C20-TB18"):
+        rule_TB18(rep, prog)
+    if want("C20-FR19"):
+        rule_FR19(rep, prog)
     if want("C13-AI10") or want("C13-OD5") or want("C13-AI6") or want("C13-SB9"):
         # the transforms see their input only as the regions dispatch_data_apply hands them and read ahead through create_subrange / create_map: "independent
         # of fragmentation" and "never reads outside the input" rest on the record walks of data.c tiling the byte string exactly (shared with C13)
